@@ -41,7 +41,8 @@ type sreqCase struct {
 	text    int    // index into texts
 }
 
-var srvTexts = []string{"", "boom", "line1\nline2\n\ttabbed", "ünïcödé ✓ 错误", strings.Repeat("long-", 13000), "x", "svc failed: code=42"}
+var srvTexts = []string{"", "boom", "line1\nline2\n\ttabbed", "ünïcödé ✓ 错误", strings.Repeat("long-", 13000), "x", "svc failed: code=42",
+	strings.Repeat("panic-value-", 400) + "END"} // the last one: a panic value of 4.8 KB (it arrives whole)
 
 func (q sreqCase) pathMethod() (string, string) {
 	switch q.style {
@@ -63,6 +64,8 @@ func (q sreqCase) pathMethod() (string, string) {
 		return "Fn", "Fn.mul"
 	case "nomethqm": // ... and of a reflected method
 		return "Arith", "Arith.Mul"
+	case "nomethe": // no method name at all
+		return "Arith", ""
 	default:
 		return "Arith", "nometh"
 	}
@@ -113,7 +116,7 @@ func (q sreqCase) handlerRuns() bool {
 		return false
 	}
 	switch q.style {
-	case "nosvc", "nometh", "nomethqf", "nomethqm":
+	case "nosvc", "nometh", "nomethqf", "nomethqm", "nomethe":
 		return false
 	case "router":
 		// the router handler itself is user code: it runs, Bind fails inside it for bad input
@@ -1113,7 +1116,7 @@ func genSreq(prop string, r *common.Rand, nconn int) sreqCase {
 	if r.Chance(20) {
 		q.seq = r.U64()
 	}
-	q.style = []string{"method", "method", "pooled", "pooled", "pooledv", "func", "funcp", "router", "nosvc", "nometh", "nomethqf", "nomethqm"}[r.Intn(12)]
+	q.style = []string{"method", "method", "pooled", "pooled", "pooledv", "func", "funcp", "router", "nosvc", "nometh", "nomethqf", "nomethqm", "nomethe"}[r.Intn(13)]
 	failP := 25
 	if prop == "C07" {
 		failP = 60
@@ -1145,7 +1148,7 @@ func genSreq(prop string, r *common.Rand, nconn int) sreqCase {
 		q.hb = true
 	}
 	if q.mode == "panic" && q.text == 4 {
-		q.text = 1 // keep panic stack messages small
+		q.text = 7 // 65 KB would make the stack messages huge; 4.8 KB is long enough to meet any cap
 	}
 	if prop == "C04" && r.Chance(7) {
 		q.mode = "limit" // refused by a PostReadRequest plugin before it is dispatched, whatever else it is
@@ -1284,8 +1287,8 @@ func runSrv(prop string, r *common.Rand, tier string, o *common.Out, replay stri
 		// systematic matrix: every dispatch style x every way a request can end x one-way / two-way, each followed by
 		// an ordinary request on the same connection (what a one-way request must NOT produce is a frame)
 		k := 0
-		for _, style := range []string{"method", "pooled", "pooledv", "func", "funcp", "router", "nosvc", "nometh", "nomethqf", "nomethqm"} {
-			for _, end := range []string{"ok", "err", "panic", "veto", "badjson", "nobody", "ser9", "limit", "auth"} {
+		for _, style := range []string{"method", "pooled", "pooledv", "func", "funcp", "router", "nosvc", "nometh", "nomethqf", "nomethqm", "nomethe"} {
+			for _, end := range []string{"ok", "err", "panic", "longpanic", "veto", "badjson", "nobody", "ser9", "limit", "auth"} {
 				for _, ow := range []bool{false, true} {
 					if end == "veto" && (style == "router" || style == "nosvc" || strings.HasPrefix(style, "nometh")) {
 						continue
@@ -1297,6 +1300,8 @@ func runSrv(prop string, r *common.Rand, tier string, o *common.Out, replay stri
 					switch end {
 					case "err", "panic":
 						q.mode, q.text = end, 1
+					case "longpanic":
+						q.mode, q.text = "panic", 7
 					case "veto", "limit", "auth":
 						q.mode = end
 					case "badjson":
